@@ -1,4 +1,5 @@
-import PySMT.Proofs.C04World
+import PySMT.Proofs.C04Ident
+import PySMT.Proofs.C04Pub
 /-!
 # C04 — hash-consing: one object per structure, faithful accessors, faithful copies
 
@@ -6,6 +7,26 @@ Model: `PySMT/Impl/Manager.lean`.  `Reachable s` = `s` is the state of a manager
 finite history of programs over the primitives (`create_node`, `Int`, `Real`, `String`,
 `get_or_create_symbol`, `_fresh_guess`, `TypeManager.normalize`), successful or failing.
 All theorems below are for every reachable state: no bound on the history.
+
+What the model does NOT contain (so no theorem below speaks about it):
+* the type check inside `create_node` (formula.py:99,105: Python re-checks the node on both
+  paths and raises `PysmtTypeError` for an ill-sorted node, which stays in the table).  The
+  model is `create_node` on well-sorted requests; its reachable states are a superset of
+  Python's, which is sound for the invariants (`table_inj`, `table_fun`, …), but "the
+  program succeeds" in `create_same_iff_struct` / `recreate_existing` is a statement about
+  the unchecked model: read it as "whenever both calls return".  K never issues ill-sorted
+  calls (C03 covers the rejection, C15 the node left behind).
+* object identity across managers: node ids are per-manager name spaces, so "the copy shares
+  no formula object with the source" holds by this modelling choice and is *not* a theorem.
+  It is an observation of K/S on the real objects (`normalize/shared-node`,
+  `normalize/foreign-node`, `normalize/type-not-interned`, `own-formula-not-identity`):
+  every node of a copy is checked with `is` against all nodes of the other environments.
+* content equality is Lean structural equality; Python uses `==`/`hash` of the
+  `(node_type, args, payload)` tuple with `FNode.__eq__` = identity.  Values of different
+  Python types that compare equal are modelled where a constructor lets them through
+  (`Real`: `PyNum.pyEq`); everywhere else the constructors reject them before the table is
+  consulted (`Int`, `BV` value *and width* — F62 repaired —, `BVRol/BVRor/BVZExt/BVSExt`
+  steps, `BVExtract` bounds, shift amounts: K issues `True`/`1.0`/`2.0` spellings for all).
 -/
 namespace PySMT.Props.C04
 open PySMT.Manager
@@ -28,8 +49,9 @@ theorem id_eq_iff_struct_eq {s : Mgr} (h : Reachable s) {i j : Nid}
   (struct_eq_iff h.inv i0 i1 j0 j1).symm
 
 /-- Two construction histories: build tree `t₁` bottom-up, run an arbitrary program `p`
-    (any unrelated constructions, also failing ones), build `t₂`.  Both succeed and return the
-    same id iff the trees are equal. -/
+    (any unrelated constructions, also failing ones), build `t₂`.  The ids returned are equal
+    iff the trees are equal.  ("Both succeed" holds in the model, which has no type check: for
+    Python read "whenever both return"; see the header.) -/
 theorem create_same_iff_struct {α : Type} {s₀ : Mgr} (h₀ : Reachable s₀) (t₁ t₂ : Term)
     (w₁ : t₁.WF) (w₂ : t₂.WF) (p : Prog α) :
     ∃ i₁ s₁ i₂ s₃, (buildT t₁).run s₀ = (.ok i₁, s₁) ∧ (buildT t₂).run (p.run s₁).2 = (.ok i₂, s₃) ∧
@@ -76,7 +98,12 @@ theorem const_validation_history_independent (s : Mgr) :
     (∀ v e, v.realValue = .error e → (mkReal v).run s = (.error e, s)) :=
   ⟨fun _ h => mkInt_rejects s h, fun _ _ h => mkReal_rejects s h⟩
 
-/-- The accessors of the node returned by `create_node` report exactly the operator, children
+/-- NOTE: in the model `node_type()/args()/_content.payload` *are* the reverse table look-up,
+    so this theorem is `table_inj` plus stability, not an independent fact; the accessors that
+    decode the payload have their own statements below (`symbol_accessors_faithful`,
+    `bv_width_faithful`, `array_accessors_faithful`, `sbv_signed_value_faithful`,
+    `array_get_correct`).
+    The accessors of the node returned by `create_node` report exactly the operator, children
     and payload it was given, and keep doing so after any further program. -/
 theorem accessors_faithful {α : Type} {s s' : Mgr} (h : Reachable s) {c : Content} {i : Nid}
     (hc : (create c).run s = (.ok i, s')) (p : Prog α) :
@@ -107,6 +134,110 @@ theorem array_get_correct {s s' : Mgr} (h : Reachable s) {addr : Nid → Nat}
     (idx : Nid) (hc : s'.isConstant idx = true) :
     arrayValueGet addr s' i idx = .ok ((lookupKey (arrayAssignments addr d assign) idx).getD d) :=
   PySMT.Manager.array_get_correct h.inv hinj hd hrun idx hc
+
+/-! ### payload-decoding accessors -/
+
+/-- `Symbol(n, t)`: `symbol_name()` = `n`, `symbol_type()` = `t`, and `bv_width()` = `w` for
+    `t = BV w`. -/
+theorem symbol_accessors_faithful {s s' : Mgr} (h : Reachable s) {n : String} {t : Ty} {i : Nid}
+    (hr : (mkSymbol n t).run s = (.ok i, s')) :
+    s'.symbolName i = some n ∧ s'.symbolType i = some t ∧ (∀ w, t = .bv w → s'.bvWidth i = some w) :=
+  symbol_accessors h.inv hr
+
+/-- `bv_width()` of a bit-vector constant is the width it was built with; of `BVNot(x)` /
+    `BVNeg(x)` the width of `x` at construction (the computed payload is the child's width). -/
+theorem bv_width_faithful {s s' : Mgr} (h : Reachable s) :
+    (∀ {v w : Nat} {i : Nid}, (create ⟨NT.BV_CONSTANT, [], .bv v w⟩).run s = (.ok i, s') → s'.bvWidth i = some w) ∧
+    (∀ {nt : Nat} {x i : Nid}, nt ∈ bvUnNTs → (mkBVUn nt x).run s = (.ok i, s') → s'.bvWidth i = s.bvWidth x) :=
+  ⟨fun hr => (bvConst_accessors h.inv hr).1, fun hnt hr => bvUn_width h.inv hnt hr⟩
+
+/-- `Array(it, d, assign)`: `array_value_assigned_values_map()` holds exactly the given
+    assignments with a non-default value, `array_value_default()` = `d`,
+    `array_value_index_type()` = `it`. -/
+theorem array_accessors_faithful {s s' : Mgr} (h : Reachable s) {addr : Nid → Nat} {it : Ty} {d i : Nid}
+    {assign : List (Nid × Nid)} (hr : (mkArray addr it d assign).run s = (.ok i, s')) :
+    (∃ m, s'.assignedValues i = some m ∧ ∀ kv, kv ∈ m ↔ kv ∈ assign ∧ kv.2 ≠ d) ∧
+    s'.arrayDefault i = some d ∧ s'.indexType i = some it :=
+  array_accessors h.inv hr
+
+/-! ### documented constructor normalisations: two different calls, one node -/
+
+/-- the rewriting constructors are, as programs, the constructors they rewrite to -/
+theorem normalisation_program_equalities (a b : Nid) (nt : Nat) :
+    mkGE a b = mkLE b a ∧ mkGT a b = mkLT b a ∧
+    mkBVUGT a b = mkBVULT b a ∧ mkBVUGE a b = mkBVULE b a ∧
+    mkBVSGT a b = mkBVSLT b a ∧ mkBVSGE a b = mkBVSLE b a ∧
+    mkAnd [a] = pure a ∧ mkOr [a] = pure a ∧ mkPlus [a] = pure a ∧ mkTimes [a] = pure a ∧
+    mkAnd [] = pure trueId ∧ mkOr [] = pure falseId ∧
+    mkQuant nt [] b = pure b ∧ mkFunction a [] = pure a ∧
+    mkXor a b = (mkIff a b).bind mkNot ∧ mkNotEquals a b = (mkEquals a b).bind mkNot :=
+  ⟨rfl, rfl, rfl, rfl, rfl, rfl, rfl, rfl, rfl, rfl, rfl, rfl, rfl, rfl, rfl, rfl⟩
+
+/-- `GE(a,b)` / `GT(a,b)` now and `LE(b,a)` / `LT(b,a)` at any later point of the history
+    return the same node. -/
+theorem ge_is_le_swapped {α : Type} {s s1 s3 : Mgr} (h : Reachable s) {a b i j : Nid} (p : Prog α) :
+    ((mkGE a b).run s = (.ok i, s1) → (mkLE b a).run (p.run s1).2 = (.ok j, s3) → i = j) ∧
+    ((mkGT a b).run s = (.ok i, s1) → (mkLT b a).run (p.run s1).2 = (.ok j, s3) → i = j) :=
+  ⟨ge_le_same_node h.inv p, gt_lt_same_node h.inv p⟩
+
+/-- `Not(Not(x)) = x`: `Not` applied (at any later point) to the node `Not(x)` returns `x`
+    and creates nothing; and `Not` of *any* `NOT` node returns its child. -/
+theorem not_not_is_identity {α : Type} {s s1 : Mgr} (h : Reachable s) {x n : Nid} (p : Prog α)
+    (hx : ∃ c, s.content? x = some c ∧ c.nodeType ≠ NT.NOT) (h1 : (mkNot x).run s = (.ok n, s1)) :
+    (mkNot n).run (p.run s1).2 = (.ok x, (p.run s1).2) :=
+  not_not_same_node h.inv p hx h1
+
+/-- `Div(x, c)` by a non-zero Real constant *is* (same run in every state) `Times(x, Real(1/c))`,
+    and the two calls at different points of a history return the same node; `Div(x, 0)` stays
+    a `DIV` node. -/
+theorem div_by_constant_is_times {α : Type} {s s1 s3 : Mgr} (h : Reachable s) {x r i j : Nid} {q : Rat}
+    (p : Prog α) (hr : (realC q, r) ∈ s.formulae) (hq : q ≠ 0) :
+    (mkDiv x r).run s = ((mkReal (.frac (1 / q))).bind fun inv => mkTimes [x, inv]).run s ∧
+    ((mkDiv x r).run s = (.ok i, s1) →
+      ((mkReal (.frac (1 / q))).bind fun inv => mkTimes [x, inv]).run (p.run s1).2 = (.ok j, s3) → i = j) :=
+  ⟨mkDiv_real_const h.inv hr hq, div_times_same_node h.inv p hr hq⟩
+
+/-- `ToReal(Int(n))` is `Real(n)` (same run, same node at any later point); `ToReal` of a
+    Real-typed term is the term. -/
+theorem toReal_normalisations {α : Type} {s s1 s3 : Mgr} (h : Reachable s) {f i j : Nid} {n : Int} (p : Prog α)
+    (hf : (intC n, f) ∈ s.formulae) :
+    (mkToReal f).run s = (mkReal (.int n)).run s ∧
+    ((mkToReal f).run s = (.ok i, s1) → (mkReal (.int n)).run (p.run s1).2 = (.ok j, s3) → i = j) ∧
+    (∀ g, s.typeOf g = some .real → (mkToReal g).run s = (.ok g, s)) :=
+  ⟨mkToReal_int_const h.inv hf, toReal_const_same_node h.inv p hf, fun _ hg => mkToReal_real hg⟩
+
+/-- `EqualsOrIff` is `Iff` on Boolean terms (same node as a later `Iff`) and `Equals` otherwise. -/
+theorem equalsOrIff_normalisation {α : Type} {s s1 s3 : Mgr} (h : Reachable s) {l r i j : Nid} (p : Prog α) :
+    (s.typeOf l = some .bool → (mkEqualsOrIff l r).run s = (mkIff l r).run s) ∧
+    (∀ t, s.typeOf l = some t → t ≠ .bool → (mkEqualsOrIff l r).run s = (mkEquals l r).run s) ∧
+    (s.typeOf l = some .bool → (mkEqualsOrIff l r).run s = (.ok i, s1) →
+      (mkIff l r).run (p.run s1).2 = (.ok j, s3) → i = j) :=
+  ⟨mkEqualsOrIff_bool, fun _ ht hne => mkEqualsOrIff_nonbool ht hne,
+   fun hb h1 h2 => equalsOrIff_iff_same_node h.inv p hb h1 h2⟩
+
+/-! ### everything the public constructors build is normal -/
+
+/-- PARTIAL public-constructor invariant.  `PubReach addr s`: `s` is reached from a fresh
+    manager by calls of the constructors listed in `IsPub` only.  Then `s` is reachable, and
+    the hypothesis `AllNormal` of `rebuild_id` / `normalize_copy_partial` holds for *every*
+    node (`true`), and for copies into another manager (`false`) whenever the sub-DAG contains
+    no array value.
+    Covered (`IsPub`): `Symbol`, `Real`, `Int`, `String`, `Bool`, `And/Or/Plus/Times`,
+    `StrConcat`, `Not`, `Xor`, `NotEquals`, `EqualsOrIff`, `Function`, every constructor that is
+    one plain `create_node` (`Implies`, `Iff`, `Minus`, `Equals`, `LE/LT/GE/GT`, `Ite`, the
+    bit-vector relations, the string operators, `Select`, `Store`, `BVToNatural`), `BV`,
+    `BVNot/BVNeg`, the binary and n-ary bit-vector operators, shifts (node / int amount),
+    rotations, extensions, binary `BVConcat`, `BVExtract`, `BVComp`, `_Algebraic`.
+    NOT yet covered (so histories using them are outside `PubReach`): `FreshSymbol`,
+    `ForAll/Exists`, `ToReal`, `Div`, `Pow`, `Min/Max/MinBV/MaxBV`, `AtMostOne/ExactlyOne/
+    AllDifferent`, n-ary `BVConcat`, `BVNand/BVNor/BVXnor`, `BVSMod`, `BVRepeat`, `SBV`, `Array`,
+    and `normalize` itself as a step.  The per-constructor lemmas have the same shape
+    (`PubOK`, closed under `bind`); they are missing, not false. -/
+theorem pub_allNormal_partial {addr : Nid → Nat} {s : Mgr} (h : PubReach addr s) (i : Nid) :
+    Reachable s ∧ AllNormal s addr true i ∧
+    ((∀ c k, (c, k) ∈ s.formulae → InDag s i k → c.nodeType ≠ NT.ARRAY_VALUE) → AllNormal s addr false i) :=
+  ⟨h.spec.1, fun c k hc _ => h.spec.2 c k hc,
+   fun hna c k hc hd => (h.spec.2 c k hc).to_false (hna c k hc hd)⟩
 
 /-! ### `normalize` — several environments, persistent memos, arbitrary interleavings
 
@@ -248,6 +379,11 @@ example :
 /-- `SBV(-8, 4)` and `BV(1, 1)`: the most negative value of a width is negative -/
 example : bvSignedValue 8 4 = -8 ∧ bvSignedValue 1 1 = -1 ∧ bvSignedValue 7 4 = 7 ∧ bvSignedValue 0 1 = 0 ∧
     bvBinStr 8 4 = ['1', '0', '0', '0'] := by decide +kernel
+
+/-- `PubReach` is inhabited by a non-trivial history: `x : BV8`, `BVNot(x)`, `Not(Not(b))` -/
+example (addr : Nid → Nat) :
+    PubReach addr ((mkBVUn NT.BV_NOT 3).run ((mkSymbol "x" (.bv 8)).run Mgr.init).2).2 :=
+  .step _ (.bvUn (by simp [bvUnNTs]) 3) (.step _ (.symbol "x" (.bv 8)) .init)
 
 /-- sorted assignments exist: two distinct keys in either address order -/
 example : SortedBy (fun i => 10 - i) (arrayAssignments (fun i => 10 - i) 9 [(3, 7), (4, 8), (5, 9)]) ∧
